@@ -12,7 +12,7 @@ RULE = (
     "cancelled, lapsed, complete, cancel/replace/update in flight, LOC/MOC orders), adjustment factors from {0, 1.0, "
     "2.49, 2.5, 2.51, 10, 40, 99, runner's own; None only on non-BSP markets}, removals before/after in-play, several "
     "removals per market, WIN/PLACE/OTHER_PLACE/EACH_WAY/MATCH_ODDS, and the same selection id + factor removed in "
-    "1-3 markets processed by one framework (sequential and event-grouped). Fragment prices are tracked fragment by "
+    "1-3 markets processed by one framework (sequential and event-grouped), default and pre-play-only (inplay=False) listeners. Fragment prices are tracked fragment by "
     "fragment over the whole run. Non-trivial: a removal with >= 1 matched order on another runner or >= 1 order "
     "on the removed runner that was not simply resting; distinct = distinct scenario JSON."
 )
@@ -64,9 +64,14 @@ def scenario(draw, tier="quick"):
         scripts += draw(gen.script(spec, states, mi=mi, max_entries=6, max_ops=3,
                                    place_kw=dict(kinds=("LIMIT", "LIMIT", "LIMIT", "LOC", "MOC", "MOC") if bsp else ("LIMIT",),
                                                  sp=bsp, sizes="level")))
-    return {"markets": markets, "event_processing": grouped,
-            "strategies": [gen.strategy_spec("A", script=scripts)],
-            "clients": [{"min_bet_validation": False}], "config": {}}
+    sc = {"markets": markets, "event_processing": grouped,
+          "strategies": [gen.strategy_spec("A", script=scripts)],
+          "clients": [{"min_bet_validation": False}], "config": {}}
+    if draw(st.integers(0, 4)) == 0:
+        # pre-play-only backtest (listener inplay=False): OPEN in-play updates are not delivered, but a removal declared
+        # after the off arrives in a SUSPENDED update and those are processed regardless
+        sc["listener_kwargs"] = {"inplay": False}
+    return sc
 
 
 def reduce_price(p, f):
@@ -89,15 +94,22 @@ def check(sc):
         prev = {}  # oid -> snapshot at previous update
         first_seen = {}
         removed_sel = {}  # selection id -> update idx of removal
+        last_u = 0
+        last_removals = []
         for rec in recs:
             u = pt2idx[int(round((rec["pt"] - epoch).total_seconds() * 1000))]
-            # removals that happened at update u (definition status change)
-            new_removals = []
-            if u > 0:
-                for i, (a, b) in enumerate(zip(ups[u - 1].runner_status, ups[u].runner_status)):
-                    if a == "ACTIVE" and b == "REMOVED":
-                        new_removals.append((i, ups[u].runner_af[i]))
-                        removed_sel.setdefault(sel_ids[i], u)
+            # removals (definition status change) since the update of the previous callback: with the default listener
+            # that is update u alone; a filtering listener may skip updates in between
+            if u == last_u:
+                new_removals = last_removals
+            else:
+                new_removals = []
+                for v in range(max(1, last_u + 1), u + 1):
+                    for i, (a, b) in enumerate(zip(ups[v - 1].runner_status, ups[v].runner_status)):
+                        if a == "ACTIVE" and b == "REMOVED":
+                            new_removals.append((i, ups[v].runner_af[i]))
+                            removed_sel.setdefault(sel_ids[i], v)
+                last_u, last_removals = u, new_removals
             for o in rec["orders"]:
                 oid = o["oid"]
                 p = prev.get(oid)
